@@ -18,6 +18,10 @@ class TD(object):
   def __init__(self, days=0, seconds=0, microseconds=0, milliseconds=0, minutes=0, hours=0, weeks=0, _us=None):
     self.us = _us if _us is not None else ((((weeks * 7 + days) * 24 + hours) * 60 + minutes) * 60 * US + seconds * US
                                            + milliseconds * 1000 + microseconds)
+    if isinstance(self.us, float):
+      # datetime.timedelta rounds to whole microseconds (half to even); zone tables hold offsets such as -130.33333333333334
+      # minutes (local mean time), for which minutes * 60e6 is not an integer in floating point
+      self.us = int(round(self.us))
 
   def total_seconds(self):
     return self.us / US
